@@ -89,6 +89,8 @@ func init() {
 		u.fn("rv_mapval", []string{"RV", "Iface"}, "RV")
 		u.fact(fmt.Sprintf("(forall ((qx Iface)) (! (=> (rv_valid (rv_mapval %s qx)) (and (<= 0 (rv_keyidx %s qx)) (< (rv_keyidx %s qx) (rv_len %s)) (= (rv_iface (rv_key %s (rv_keyidx %s qx))) qx))) :pattern ((rv_mapval %s qx))))", v, v, v, v, v, v, v))
 		u.fact(fmt.Sprintf("(forall ((qi Int)) (! (and (rv_valid (rv_key %s qi)) (rv_iskey %s (rv_key %s qi)) (= (rv_type (rv_key %s qi)) (keyT (rv_type %s)))) :pattern ((rv_key %s qi))))", v, v, v, v, v, v))
+		// a key of a Go map is hashable: its dynamic kind is not slice, map or func
+		u.fact(fmt.Sprintf("(forall ((qi Int)) (! (let ((k (kind (ityp (rv_iface (rv_key %s qi)))))) (and (distinct k 23) (distinct k 21) (distinct k 19))) :pattern ((rv_key %s qi))))", v, v))
 		entryValFacts(u, v)
 	}
 	reg("(reflect.Value).MapRange", "Value.MapRange: panics unless kind is Map; returns an iterator positioned before the first of the Len() entries (the same enumeration MapKeys returns)", func(fr *Frame, st *State, callee *ssa.Function, args []*Val, pos token.Pos, resTy types.Type) *Val {
